@@ -555,6 +555,201 @@ async fn honest_server_handshake(peer: &mut Peer, names: &Names, n: u64) {
     peer.new_frames();
 }
 
+
+// ---------- handler-level runs on a constructed state (hook: node_session::verif_gate) ----------
+
+struct ServerStub;
+impl Actor for ServerStub {
+    type Msg = NodeServerMessage;
+    type State = ();
+    type Arguments = ();
+    async fn pre_start(&self, _: ActorRef<Self::Msg>, _: ()) -> Result<(), ActorProcessingErr> {
+        Ok(())
+    }
+    async fn handle(&self, _: ActorRef<Self::Msg>, m: NodeServerMessage, _: &mut ()) -> Result<(), ActorProcessingErr> {
+        match m {
+            NodeServerMessage::CheckSession { reply, .. } => {
+                let _ = reply.send(ractor_cluster::node::SessionCheckReply::NoOtherConnection);
+            }
+            NodeServerMessage::GetSessions(reply) => {
+                let _ = reply.send(HashMap::new());
+            }
+            _ => {}
+        }
+        Ok(())
+    }
+}
+struct SessionStub;
+impl Actor for SessionStub {
+    type Msg = NodeSessionMessage;
+    type State = ();
+    type Arguments = ();
+    async fn pre_start(&self, _: ActorRef<Self::Msg>, _: ()) -> Result<(), ActorProcessingErr> {
+        Ok(())
+    }
+    // the stand-in supervises the proxies; their exit must not stop it (the default would)
+    async fn handle_supervisor_evt(&self, _: ActorRef<Self::Msg>, _: ractor::SupervisionEvent, _: &mut ()) -> Result<(), ActorProcessingErr> {
+        Ok(())
+    }
+}
+
+/// unit <kind> <adv: comma separated targets or -> <op> ; <op> ...
+async fn run_unit(case: u64, rest: &str) -> String {
+    use ractor_cluster::node::node_session::verif_gate::{AuthKind, VerifSession};
+    let mut it = rest.splitn(3, ' ');
+    let kind_s = it.next().unwrap();
+    let adv_s = it.next().unwrap();
+    let ops = it.next().unwrap_or("");
+    let log = Log::default();
+    let (r, _) = Actor::spawn(None, Remotable(log.clone()), ()).await.unwrap();
+    let (p, _) = Actor::spawn(None, Plain(log.clone()), ()).await.unwrap();
+    let (d, dh) = Actor::spawn(None, Remotable(log.clone()), ()).await.unwrap();
+    d.stop(None);
+    let _ = dh.await;
+    ractor::pg::join_scoped(grp(case, 900), grp(case, 901), vec![r.get_cell()]);
+    let (ns, _) = Actor::spawn(None, ServerStub, ()).await.unwrap();
+    let (me, _) = Actor::spawn(None, SessionStub, ()).await.unwrap();
+    let mut ctx = Ctx {
+        case,
+        names: Names { self_cs: "h:1".into() },
+        dg: Digests { known: HashMap::new() },
+        issued: 0,
+        targets: HashMap::new(),
+    };
+    ctx.targets.insert("R", r.get_id().pid());
+    ctx.targets.insert("P", p.get_id().pid());
+    ctx.targets.insert("D", d.get_id().pid());
+    ctx.targets.insert("NS", ns.get_id().pid());
+    ctx.targets.insert("SESS", me.get_id().pid());
+    ctx.targets.insert("NONE", 4_000_000_000);
+    let adv: Vec<u64> = if adv_s == "-" { vec![] } else { adv_s.split(',').map(|t| ctx.target(t)).collect() };
+    let kind = match kind_s {
+        "sinit" => AuthKind::ServerInit,
+        "schal" => {
+            ctx.issued = 4242;
+            ctx.dg.learn(4242);
+            AuthKind::ServerChallenged(4242)
+        }
+        "sok" => AuthKind::ServerOk,
+        "sclose" => AuthKind::ServerClose,
+        "cinit" => AuthKind::ClientInit,
+        "cok" => AuthKind::ClientOk,
+        _ => AuthKind::ClientClose,
+    };
+    let peer = if matches!(kind_s, "sinit" | "cinit") { None } else { Some(("s1@h", "c1")) };
+    let mut vs = VerifSession::new(&cookie_str(0), &format!("s{SELF_NAME}@h"), "h:1", ns.get_cell(), me.get_cell(), kind, peer, &adv).await;
+    let mut steps = vec![];
+    let mut seen_log = 0usize;
+    for op in ops.split(';') {
+        let w: Vec<&str> = op.split_whitespace().collect();
+        if w.is_empty() {
+            continue;
+        }
+        let (frame, term) = ctx.build(&w);
+        let Ok(frame) = frame else { continue };
+        let mut adv_before = vs.advertised();
+        adv_before.sort();
+        let ok_before = vs.auth_kind() == 1;
+        vs.receive(frame).await;
+        barrier().await;
+        let frames = vs.take_sent();
+        let mut rnd = 0u32;
+        for f in &frames {
+            if let Some(pm::network_message::Message::Auth(a)) = &f.message {
+                match &a.msg {
+                    Some(pa::authentication_message::Msg::ServerChallenge(c)) => {
+                        ctx.issued = c.challenge;
+                        rnd = c.challenge;
+                        ctx.dg.learn(c.challenge);
+                    }
+                    Some(pa::authentication_message::Msg::ClientChallenge(c)) => {
+                        ctx.issued = c.challenge;
+                        rnd = c.challenge;
+                        ctx.dg.learn(c.challenge);
+                    }
+                    _ => {}
+                }
+            }
+        }
+        let frame_terms: Vec<String> = frames.iter().map(|f| frame_term(f, &ctx.names, &ctx.dg)).collect();
+        let deliveries: Vec<String> = {
+            let l = log.0.lock().unwrap();
+            let out = l[seen_log..]
+                .iter()
+                .map(|s| {
+                    let (k, pid) = s.split_once(' ').unwrap();
+                    match k {
+                        "cast" => format!("EDeliverCast {pid}"),
+                        "call" => format!("EDeliverCall {pid} 0"),
+                        _ => format!("EDeliverOther {pid}"),
+                    }
+                })
+                .collect();
+            seen_log = l.len();
+            out
+        };
+        let mut proxies: Vec<(u64, String)> = me
+            .get_children()
+            .iter()
+            .filter(|c| !c.get_id().is_local())
+            .map(|c| (c.get_id().pid(), opt_name(&c.get_name())))
+            .collect();
+        proxies.sort();
+        let mut remote = vs.remote_pids();
+        remote.sort();
+        let mut adv_after = vs.advertised();
+        adv_after.sort();
+        let mut groups = vec![];
+        for s in 1..=2u64 {
+            for g in 1..=2u64 {
+                let mut m: Vec<u64> = ractor::pg::get_scoped_members(&grp(case, s), &grp(case, g)).iter().map(|c| c.get_id().pid()).collect();
+                m.sort();
+                if !m.is_empty() {
+                    groups.push(format!("({s}, {g}, {})", coq_nums(m)));
+                }
+            }
+        }
+        let stopped = !matches!(me.get_status(), ActorStatus::Running);
+        steps.push(format!(
+            "({term}, ({}, {}, {}), {}, {}, {}, {}, ({}, {}, {}), {rnd})",
+            coq_bool(ok_before),
+            vs.auth_kind(),
+            coq_bool(stopped),
+            coq_list(&frame_terms),
+            coq_list(&deliveries),
+            coq_list(&proxies.iter().map(|(p, n)| format!("({p}, {n})")).collect::<Vec<_>>()),
+            coq_list(&groups),
+            coq_nums(adv_before),
+            coq_nums(adv_after),
+            coq_nums(remote),
+        ));
+        if stopped {
+            break;
+        }
+    }
+    let header = format!("({}, {}, {})", r.get_id().pid(), coq_nums(adv), kind_s_code(kind_s));
+    vs.shutdown();
+    ns.stop(None);
+    me.stop(None);
+    r.stop(None);
+    p.stop(None);
+    barrier().await;
+    barrier().await;
+    format!("({header}, {})", coq_list(&steps))
+}
+
+fn kind_s_code(k: &str) -> u64 {
+    match k {
+        "sinit" => 0,
+        "schal" => 1,
+        "sok" => 2,
+        "sclose" => 3,
+        "cinit" => 4,
+        "cok" => 5,
+        _ => 6,
+    }
+}
+
 async fn run_live(case: u64, rest: &str) -> String {
     let mut it = rest.splitn(3, ' ');
     let is_server = it.next().unwrap() == "server";
@@ -811,6 +1006,7 @@ fn main() {
             let (kind, rest) = line.split_once(' ').unwrap_or((&line, ""));
             match kind {
                 "live" => println!("{}", run_live(i as u64 + 1, rest).await),
+                "unit" => println!("{}", run_unit(i as u64 + 1, rest).await),
                 other => panic!("unknown case kind {other}"),
             }
         }
